@@ -33,8 +33,8 @@ pub open spec fn vw(s: SecMap, x: int) -> Option<(u8, MemoryPermissions)> {
 }
 
 /// the view as a map from addresses to (byte, permissions)
-pub open spec fn bytes_of(s: SecMap) -> Map<u64, (u8, MemoryPermissions)> {
-    Map::new(|x: u64| vw(s, x as int) is Some, |x: u64| vw(s, x as int).unwrap())
+pub open spec fn bytes_of(s: SecMap) -> IMap<u64, (u8, MemoryPermissions)> {
+    IMap::new(|x: u64| vw(s, x as int) is Some, |x: u64| vw(s, x as int).unwrap())
 }
 
 /// the content after writing region [address, address + data.len()) with permissions p
@@ -43,8 +43,8 @@ pub open spec fn write_at(s0: SecMap, address: u64, data: Seq<u8>, p: MemoryPerm
 }
 
 /// the same on the map view: old content overridden on [address, address + data.len())
-pub open spec fn write_map(m: Map<u64, (u8, MemoryPermissions)>, address: u64, data: Seq<u8>, p: MemoryPermissions) -> Map<u64, (u8, MemoryPermissions)> {
-    Map::new(
+pub open spec fn write_map(m: IMap<u64, (u8, MemoryPermissions)>, address: u64, data: Seq<u8>, p: MemoryPermissions) -> IMap<u64, (u8, MemoryPermissions)> {
+    IMap::new(
         |x: u64| (address <= x < address + data.len()) || m.contains_key(x),
         |x: u64| if address <= x < address + data.len() { (data[x - address], p) } else { m[x] },
     )
@@ -81,7 +81,7 @@ pub open spec fn bytes_at(s: SecMap, address: u64, n: nat) -> Seq<u8> {
 }
 
 pub open spec fn all_mapped(s: SecMap, address: u64, n: nat) -> bool {
-    forall|i: int| 0 <= i < n ==> (#[trigger] vw(s, address + i)) is Some
+    forall|x: int| address <= x < address + n ==> (#[trigger] vw(s, x)) is Some
 }
 
 /// byte number i (in address order) of the 32-bit value written in endianness e
@@ -124,12 +124,42 @@ pub proof fn lemma_value4(b: Seq<u8>)
     let b2 = b3.drop_last();
     let b1 = b2.drop_last();
     let b0 = b1.drop_last();
-    assert(b0.len() == 0);
+    assert(b0.len() == 0 && b1.len() == 1 && b2.len() == 2 && b3.len() == 3);
     assert(b1.last() == b[0] && b2.last() == b[1] && b3.last() == b[2] && b.last() == b[3]);
-    reveal_with_fuel(le_value, 5);
-    reveal_with_fuel(be_value, 5);
     assert(pow2(0) == 1 && pow2(8) == 0x100 && pow2(16) == 0x1_0000 && pow2(24) == 0x100_0000);
+    assert(le_value(b0) == 0 && be_value(b0) == 0);
+    assert(le_value(b1) == le_value(b0) + (b1.last() as nat) * pow2(0));
+    assert(le_value(b2) == le_value(b1) + (b2.last() as nat) * pow2(8));
+    assert(le_value(b3) == le_value(b2) + (b3.last() as nat) * pow2(16));
+    assert(le_value(b) == le_value(b3) + (b.last() as nat) * pow2(24));
+    assert(be_value(b1) == be_value(b0) * 256 + (b1.last() as nat));
+    assert(be_value(b2) == be_value(b1) * 256 + (b2.last() as nat));
+    assert(be_value(b3) == be_value(b2) * 256 + (b3.last() as nat));
+    assert(be_value(b) == be_value(b3) * 256 + (b.last() as nat));
 }
+
+/// reading back, in the same endianness, the four bytes that `set32` stores yields the value
+pub proof fn lemma_w32_roundtrip(e: Endian, value: u32)
+    ensures endian_value(e, Seq::new(4, |i: int| w32_byte(e, value, i))) == value as nat,
+{
+    let b = Seq::new(4, |i: int| w32_byte(e, value, i));
+    lemma_value4(b);
+    assert(value == (value % 0x100) + ((value / 0x100) % 0x100) * 0x100 + ((value / 0x1_0000) % 0x100) * 0x1_0000
+        + ((value / 0x100_0000) % 0x100) * 0x100_0000) by (bit_vector);
+    match e {
+        Endian::Little => {
+            assert(b[0] == w32_byte(e, value, 0) && b[1] == w32_byte(e, value, 1) && b[2] == w32_byte(e, value, 2) && b[3] == w32_byte(e, value, 3));
+        },
+        Endian::Big => {
+            assert(b[0] == w32_byte(e, value, 0) && b[1] == w32_byte(e, value, 1) && b[2] == w32_byte(e, value, 2) && b[3] == w32_byte(e, value, 3));
+        },
+    }
+}
+
+/// ASSUMED (std): "Vec ... never allocates more than isize::MAX bytes", so a Vec<u8> never holds
+/// more than isize::MAX elements.  Needed for `offset + 4` (usize) not to overflow.
+pub axiom fn axiom_vec_u8_len(v: Vec<u8>)
+    ensures v@.len() <= isize::MAX as nat;
 
 // ---- facts about vw ----------------------------------------------------------------------------
 
@@ -256,6 +286,29 @@ pub proof fn lemma_replace(s: SecMap, a: u64, sec: Section)
             }
         }
     }
+}
+
+/// every address of a stored section reads that section's byte and permissions
+pub proof fn lemma_vw_section(s: SecMap, a: u64)
+    requires sections_wf(s), s.contains_key(a),
+    ensures forall|x: int| a <= x < a + s[a].data@.len() ==> #[trigger] vw(s, x) == Some((s[a].data@[x - a], s[a].permissions)),
+{
+    assert forall|x: int| a <= x < a + s[a].data@.len() implies #[trigger] vw(s, x) == Some((s[a].data@[x - a], s[a].permissions)) by {
+        lemma_vw_some(s, a, x);
+    }
+}
+
+/// the section at `a` keeps its first m bytes (Vec::truncate, or the part Vec::split_off leaves behind)
+pub proof fn lemma_truncate(s: SecMap, a: u64, sec: Section, m: int)
+    requires
+        sections_wf(s), s.contains_key(a), 0 <= m <= s[a].data@.len(),
+        sec.data@ == s[a].data@.take(m), sec.permissions == s[a].permissions,
+    ensures
+        sections_wf(s.insert(a, sec)),
+        forall|x: int| #[trigger] vw(s.insert(a, sec), x) == (if a + m <= x < a + s[a].data@.len() { None } else { vw(s, x) }),
+{
+    lemma_replace(s, a, sec);
+    lemma_vw_section(s, a);
 }
 
 /// the section at `a` is removed
